@@ -257,7 +257,9 @@ class NDNApp:
         try:
             data_name, meta_info, content, sig, raw_packet = await aio.wait_for(future, timeout=lifetime/1000.0)
         except TimeoutError:
-            if node.timeout(future):
+            # The node may have left the tree already (Data or Nack processed in the same loop turn as the timer):
+            # only delete the node we were put into.
+            if node.timeout(future) and self._int_tree.get(node_name) is node:
                 del self._int_tree[node_name]
             raise InterestTimeout()
         except aio.CancelledError:
